@@ -1,5 +1,5 @@
 """C10 — a command that fails changes nothing."""
-from .. import common, framework, fndiff, cmdrun, gen, oracles, explore2
+from .. import common, framework, fndiff, cmdrun, gen, oracles, explore2, crash, strace
 from ..histories import run_history, fieldset, replay_trace, mode_of
 
 WEIGHTS = {"new_task": 26, "new_epic": 6, "set": 30, "claim": 6, "claim_oldest": 4, "sequence": 16, "sequence_rm": 3, "plan": 5,
@@ -35,6 +35,96 @@ def gen_fn(r, v, weights):
     return req, agent
 
 
+def io_faults(ctx, r, prefer_big=False):
+    """the command's k-th (and every later) write / fsync / rename on the store's files returns an error (disk full, I/O error) instead of being
+    carried out: a command that then exits non-zero must have left the store as it was; one that exits 0 must have done all of its work"""
+    base, v, trace = crash.build_state(ctx, r, 8 + r.n(6), weights={"new_task": 50, "set": 30, "sequence": 10, "new_epic": 10})
+    try:
+        g0 = base.graph()
+        if "err" in g0:
+            return
+        v.update(g0["graph"])
+        label, argv, stdin = crash.multi_event_command(r, v)
+        for _ in range(40):          # a batch larger than any buffer the writer may use
+            if not prefer_big or "big-body" in label:
+                break
+            label, argv, stdin = crash.multi_event_command(r, v)
+        env = {"VERIF_RAND": str(r.next() % (1 << 40))}
+        twin = crash.clone(base)
+        try:
+            rc, _, _, steps = strace.run(twin, argv, stdin, env=env)
+            after = twin.graph()
+        finally:
+            twin.close()
+        if rc != 0 or "err" in after:
+            return
+        before_obs, after_obs = crash.timeless(g0["graph"]), crash.timeless(after["graph"])
+        # only faults at or before the command's commit point (its single write to the log, or the rename of the rewritten file): a failing
+        # directory fsync *after* the rename is reported by ergo as an error although the new log is in place — durability, not atomicity
+        for call, errno, ks in (("write", "ENOSPC", (1, 2, 3)), ("write", "EIO", (1, 2)), ("fsync", "EIO", (1,)), ("rename,renameat,renameat2", "EACCES", (1,))):
+            names = call.split(",")
+            n = sum(1 for s_ in steps if s_["call"] in names)
+            for k in [k for k in ks if k <= max(n, 1) + 1]:
+                c = crash.clone(base)
+                try:
+                    rc2, out2, err2, st2 = strace.run(c, argv, stdin, env=env, extra=["-e", "inject=%s:error=%s:when=%d+" % (call, errno, k)])
+                    step = {"argv": argv if sum(len(a) for a in argv) < 300 else argv[:3] + ["…"], "stdin": None if stdin is None else stdin.decode("utf-8", "replace")[:300], "env": env,
+                            "fault": "every %s on the store's files from its %d-th on returns %s (strace -e inject=%s:error=%s:when=%d+)" % (call, k, errno, call, errno, k)}
+                    ctx.count(1, key=("io-fault", label, names[0], errno, k, rc2 == 0))
+                    g = c.graph()
+                    prob = crash.reads_ok(c)
+                    if "err" in g or prob:
+                        ctx.violation("C10 store unreadable after a failed %s (%s %s)" % (label, names[0], errno), prob or g.get("err", "")[:200], {"trace": trace + [step]}); return
+                    obs = crash.timeless(g["graph"])
+                    if rc2 != 0 and obs != before_obs:
+                        ctx.violation("C10 a command that failed on an I/O error changed the store (%s, %s %s)" % (label, names[0], errno),
+                                      "exit %s (%s); the store differs from before: %s" % (rc2, err2.strip().splitlines()[-1][:120] if err2.strip() else "", str(fndiff.first_difference(before_obs, obs))[:300]),
+                                      {"trace": trace + [step]}); return
+                    if rc2 == 0 and obs != after_obs:
+                        ctx.violation("C10 a command reported success although its write failed (%s, %s %s)" % (label, names[0], errno),
+                                      "exit 0; the store differs from a complete run: %s" % str(fndiff.first_difference(after_obs, obs))[:300], {"trace": trace + [step]}); return
+                finally:
+                    c.close()
+        # a write cut short at a byte offset (file-size limit = what a full disk does in the middle of a write): the kernel writes the first
+        # bytes, the next attempt fails, the command exits non-zero — and must not leave its first lines behind
+        import subprocess, os as _os
+        pre_size = len(base.log_bytes())
+        twin = crash.clone(base)
+        try:
+            twin.exec(argv, stdin, env=env)
+            full = len(twin.log_bytes())
+        finally:
+            twin.close()
+        grow = full - pre_size
+        cuts = sorted({pre_size + 1, pre_size + max(2, grow // 2), pre_size + max(1, grow - 1)}) if grow > 2 else []
+        if label in ("plan", "compact"):
+            cuts = sorted({max(1, full // 2), max(1, full - 1)})
+        for limit in cuts:
+            c = crash.clone(base)
+            try:
+                e = dict(_os.environ); e.update(env)
+                pr = subprocess.run(["prlimit", "--fsize=%d" % limit, c.bin] + argv, cwd=c.root, input=stdin, stdin=(subprocess.DEVNULL if stdin is None else None),
+                                    capture_output=True, env=e, timeout=30)
+                step = {"argv": argv if sum(len(a) for a in argv) < 300 else argv[:3] + ["…"], "stdin": None if stdin is None else stdin.decode("utf-8", "replace")[:300], "env": env,
+                        "fault": "file size limit %d bytes (log was %d, the command writes %d): prlimit --fsize=%d ergo …" % (limit, pre_size, grow, limit)}
+                ctx.count(1, key=("short-write", label, pr.returncode == 0))
+                g = c.graph()
+                prob = crash.reads_ok(c)
+                if "err" in g or prob:
+                    ctx.violation("C10 store unreadable after a write cut short (%s)" % label, prob or g.get("err", "")[:200], {"trace": trace + [step]}); return
+                obs = crash.timeless(g["graph"])
+                if pr.returncode != 0 and obs != before_obs:
+                    ctx.violation("C10 a command that failed on a short write changed the store (%s)" % label,
+                                  "exit %s (%s); the store differs from before: %s" % (pr.returncode, pr.stderr.decode("utf-8", "replace").strip()[-100:], str(fndiff.first_difference(before_obs, obs))[:300]),
+                                  {"trace": trace + [step]}); return
+                if pr.returncode == 0 and obs != after_obs:
+                    ctx.violation("C10 a command reported success although its write was cut short (%s)" % label, str(fndiff.first_difference(after_obs, obs))[:300], {"trace": trace + [step]}); return
+            finally:
+                c.close()
+    finally:
+        base.close()
+
+
 def run(ctx):
     import os
     os.environ["GOGC"] = "1"      # stress the Go runtime: collections (and finalizers) inside every lock section
@@ -46,7 +136,10 @@ def run(ctx):
     for i in range(5 if ctx.quick else 120):
         explore2.explore(ctx, "C10", r.fork(), kindsA=(["claim_id", "set", "set+state", "new+state", "sequence"][i % 5],), kindsB=("new", "set", "claim_oldest"),
                          b_modes=("hold", "complete"), max_points=(5 if ctx.quick else 40))
-    ctx.cov["rule"] = ("seeded histories biased to failing commands (every validation class × command × multi-field shape); oracle: exit≠0 ⇒ log bytes and "
+    for i in range(4 if ctx.quick else 80):
+        io_faults(ctx, r.fork(), prefer_big=(i % 2 == 0))
+    ctx.cov["rule"] = ("injected I/O errors (write/fsync/rename/ftruncate returning ENOSPC/EIO/EACCES from the k-th call on) on multi-event commands: exit≠0 ⇒ store as before, exit 0 ⇒ complete; "
+                       "seeded histories biased to failing commands (every validation class × command × multi-field shape); oracle: exit≠0 ⇒ log bytes and "
                        "observable graph identical; distinct = (command, outcome class, input mode, field set)")
 
 
